@@ -284,10 +284,16 @@ impl Clock {
 
 	pub(crate) fn on_start_processing(&mut self) {
 		read_commands_into_parameters!(self, speed);
+		// `ClockHandle::stop` writes "stop ticking" first and "reset" second.
+		// Looking for the reset first means that whenever it is seen, the
+		// "stop ticking" written before it is seen as well (read in the other
+		// order, a `stop()` landing between the two reads would reset the clock
+		// now and stop it one callback later, at a non-zero time)
+		let reset = self.command_readers.reset.read().is_some();
 		if let Some(ticking) = self.command_readers.set_ticking.read() {
 			self.set_ticking(ticking);
 		}
-		if self.command_readers.reset.read().is_some() {
+		if reset {
 			self.reset();
 		}
 		self.update_shared();
